@@ -230,6 +230,7 @@ class Run:
         self.layout = None  # (candidates, owners, shown) of the last judged render, valid until the next op
         self.step = -1
         self.renders = 0
+        self.held = None
 
     # ---- items
     def make_item(self, r):
@@ -430,6 +431,11 @@ class Run:
         except Exception as e:  # noqa: BLE001
             raise Failure("raise", exckind(e), f"render({self.size}, focus={self.lbfocus}) raised {type(e).__name__}: {e}\n{traceback.format_exc(limit=8)}") from None
         self.renders += 1
+        # CanvasCache holds canvases weakly; a display screen keeps the last drawn canvas alive, and so do we:
+        # otherwise the ListBox's cached canvas dies at once and a missing invalidation could never show
+        if canv is self.held:
+            count("cover:render_served_from_cache")
+        self.held = canv
         shown = [b.decode("ascii", "replace") for b in content]
         fw, _fpos = self.walker.get_focus()
         # concatenation of all items at this width
@@ -568,7 +574,7 @@ class Run:
                 st = self.state_sig()
                 base = f"C07|{f.clause}|{f.kind}"
                 if f.clause != "raise":
-                    base += f"|op={st['op']}|focus={st['focus']}"
+                    base += f"|op={st['op']}|focus={st['focus'].split(',')[0].replace('edit', 'cursor')}"
                 return base, st, f.msg, i
         return None
 
@@ -602,13 +608,12 @@ def classify(wit, base, st):
     The shrinker removes every feature it can while the base signature (clause, kind of mismatch / exception
     site) still reproduces: 0-row items are given a row, the walker is turned into SimpleFocusListWalker, the
     ListBox is given focus.  What is left in the witness is therefore necessary for it, and is named:
-    zero=<focus|view|none>, walker=<any|name>, listbox=unfocused."""
+    zero=<focus|view|none>, walker=<any|dictv1|dictv2> (a custom walker is named only if neither simple walker
+    reproduces it), listbox=unfocused."""
     zero = {"focus": "focus", "view": "view", "list": "view", "none": "none"}[st["zero"]]
     walker = wit["walker"]
-    for other in ("sflw", "dictv2", "slw"):
-        if other != wit["walker"] and reproduces(dict(wit, walker=other), base):
-            walker = "any"
-            break
+    if walker in ("slw", "sflw") or reproduces(dict(wit, walker="sflw"), base) or reproduces(dict(wit, walker="slw"), base):
+        walker = "any"  # not specific to a custom walker
     sig = base
     if not wit["lbfocus"] or any(o[0] == "lbfocus" for o in wit["ops"]):
         if not reproduces(dict(wit, lbfocus=True, ops=[o for o in wit["ops"] if o[0] != "lbfocus"]), base):
@@ -679,11 +684,13 @@ def shrink(case, base, step, max_runs=220):
                 progress = True
             i -= 1
         # canonical walker / flags
-        patches = [{"walker": "sflw"}, {"walker": "dictv2"}, {"focus0": None}, {"size": [10, best["size"][1]]}]
+        patches = [{"walker": "sflw"}, {"walker": "slw"}, {"walker": "dictv2"}, {"focus0": None}, {"size": [10, best["size"][1]]}]
         for patch in patches:
             if all(best.get(k) == v for k, v in patch.items()):
                 continue
             if patch.get("walker") == "dictv2" and best["walker"] != "dictv1":
+                continue
+            if patch.get("walker") == "slw" and best["walker"] in ("slw", "sflw"):
                 continue
             c = dict(best, **patch)
             if same(c):
